@@ -474,7 +474,7 @@ class PowerOperator(Operator):
         element = extractTerm(self.element, time)
         power = extractTerm(self.power, time)
 
-        return "({} ** {} )".format(element, power)
+        return "(({}) ** ({}) )".format(element, power)
 
 
 class ComparisonOperator(BinaryOperator):
@@ -489,7 +489,7 @@ class ComparisonOperator(BinaryOperator):
     def term(self, time="t"):
         element_1 = extractTerm(self.element_1, time)
         element_2 = extractTerm(self.element_2, time)
-        return str(element_1) + "{}".format(self.sign) + str(element_2)
+        return "(" + str(element_1) + "){}(".format(self.sign) + str(element_2) + ")"
 
     def resolve_dimensions(self):
         return -1
@@ -524,7 +524,7 @@ class NaryOperator(Operator):
 
 class ModOperator(BinaryOperator):
     def term(self, time="t"):
-        return self.element_1.term(time) + "%" + self.element_2.term(time)
+        return "(" + self.element_1.term(time) + ")%(" + self.element_2.term(time) + ")"
 
 
 class AdditionOperator(BinaryOperator):
@@ -546,18 +546,18 @@ class AdditionOperator(BinaryOperator):
                     cur_el2 = self.element_2
                     for i in self.index:
                         cur_el2 = cur_el2[i]
-                    return "{} + {}".format(cur_el1.term(time), cur_el2.term(time))
+                    return "({}) + ({})".format(cur_el1.term(time), cur_el2.term(time))
                 else:
-                    return "{} + {}".format(cur_el1.term(time), self.element_2.term(time))
+                    return "({}) + ({})".format(cur_el1.term(time), self.element_2.term(time))
             elif(el2_arrayed):
                 cur_el2 = self.element_2
                 for i in self.index:
                     cur_el2 = cur_el2[i]
-                return "{} + {}".format(self.element_1.term(time), cur_el2.term(time))
+                return "({}) + ({})".format(self.element_1.term(time), cur_el2.term(time))
             else:
-                return self.element_1.term(time) + "+" + self.element_2.term(time)
+                return "(" + self.element_1.term(time) + ")+(" + self.element_2.term(time) + ")"
         else:
-            return self.element_1.term(time) + "+" + self.element_2.term(time)
+            return "(" + self.element_1.term(time) + ")+(" + self.element_2.term(time) + ")"
 
     def resolve_dimensions(self):
         dim1 = _get_element_dimensions(self.element_1)
@@ -607,18 +607,18 @@ class SubtractionOperator(BinaryOperator):
                     cur_el2 = self.element_2
                     for i in self.index:
                         cur_el2 = cur_el2[i]
-                    return "{} - {}".format(cur_el1.term(time), cur_el2.term(time))
+                    return "({}) - ({})".format(cur_el1.term(time), cur_el2.term(time))
                 else:
-                    return "{} - {}".format(cur_el1.term(time), self.element_2.term(time))
+                    return "({}) - ({})".format(cur_el1.term(time), self.element_2.term(time))
             elif(el2_arrayed):
                 cur_el2 = self.element_2
                 for i in self.index:
                     cur_el2 = cur_el2[i]
-                return "{} - {}".format(self.element_1.term(time), cur_el2.term(time))
+                return "({}) - ({})".format(self.element_1.term(time), cur_el2.term(time))
             else:
-                return self.element_1.term(time) + "-" + self.element_2.term(time)
+                return "(" + self.element_1.term(time) + ")-(" + self.element_2.term(time) + ")"
         else:
-            return self.element_1.term(time) + "-" + self.element_2.term(time)
+            return "(" + self.element_1.term(time) + ")-(" + self.element_2.term(time) + ")"
 
     def resolve_dimensions(self):
         dim1 = _get_element_dimensions(self.element_1)
